@@ -293,9 +293,16 @@ class World:
                     setattr(mod, "time", self.clock)
         return self
 
-    def patch(self, mod, name, value):
+    def patch(self, mod, name, value, required: bool = False):
+        """Rebind a module-level seam.  A seam the tree under test no longer has (a refactoring may have moved an
+        import) is skipped rather than treated as an error: the run then uses the real thing."""
+        if not hasattr(mod, name):
+            if required:
+                raise HarnessError(f"seam {mod.__name__}.{name} does not exist")
+            return False
         self._patched.append((mod, name, getattr(mod, name)))
         setattr(mod, name, value)
+        return True
 
     def make_scratch(self) -> str:
         if self.scratch is None:
